@@ -290,9 +290,31 @@ def hostile_config_arguments():
                  c_log(1), c_config(b"a.b.c", b"v"), c_config(b"nodot", b"v"), c_status()]
 
 
-ORACLE_ONLY = {"newline-names", "invalid-ignore-lines", "quoting-ignore-lines"}
+def unclean_file_arguments():
+    # F53: the argument as typed and its cleaned form must name the same thing for the existence test too
+    return ID + [W(b"a", b"1"), W(b"b", b"2"), W(b"d/x", b"3"), c_add([b"."]), c_commit(b"c1"), W(b"a", b"changed"),
+                 c_add([b"a"], decor=[2]), c_ls_files(True), c_status(), W(b"b", b"changed"), c_add([b"b"], decor=[3]), c_ls_files(True),
+                 c_add([b""]), c_ls_files(False), c_rm([b""]), c_ls_files(False), c_status(), c_restore([b""]), c_restore([b""], staged=True),
+                 c_add([b"a", b""]), c_rm([b"", b"a"]), c_ls_files(False), W(b"d/x", b"changed"), c_add([b"d/x"], decor=[4]), c_ls_files(True),
+                 c_rm([b"b"], decor=[2]), c_ls_files(False), c_status(), c_restore([b"a"], decor=[2]), c_restore([b"a"], staged=True, decor=[3]),
+                 c_ls_files(True)]
+
+
+def very_long_lines():
+    # F52: a config value and the first line of a commit message longer than a line scanner's 64 KiB default
+    big = b"x" * 70000
+    return [c_init(), c_config(b"user.name", b"Al Bo"), c_config(b"user.email", b"a@b.cc"), c_config(b"core.big", big),
+            c_config(b"zzz.k", b"v"), c_config(b"core.editor", b"vi"), W(b"f", b"1"), c_add([b"f"]), c_commit(b"one"), W(b"f", b"2"),
+            c_add([b"f"]), c_commit(big + b"\nsecond line"), W(b"f", b"3"), c_add([b"f"]), c_commit(b"three"), c_reflog(), c_log(3),
+            c_reset("soft", b"HEAD@{1}"), c_reflog(), c_reset("hard", b"HEAD@{1}"), c_reflog(), c_log(3), c_status(),
+            c_config(b"user.name", b"N" * 66000), W(b"f", b"4"), c_add([b"f"]), c_commit(b"four"), c_log(1)]
+
+
+ORACLE_ONLY = {"very-long-lines", "newline-names", "invalid-ignore-lines", "quoting-ignore-lines"}
 
 DIRECTED = [
+    (("C04", "C09", "C18"), "unclean-file-arguments", unclean_file_arguments, "F53: a trailing slash on an existing file, a/../a/b spellings, and the empty argument for add, rm, restore"),
+    (("C20", "C11", "C08", "C12"), "very-long-lines", very_long_lines, "F52: a config value and a commit subject of 70 000 bytes (the model driver is quadratic in line length: oracle only)"),
     (("C20", "C18"), "hostile-config-arguments", hostile_config_arguments, "F51: an empty section name and line breaks in config arguments are refused with nothing written; every command still loads the configuration afterwards"),
     (("C02", "C05", "C07"), "prefix-sibling-directories", prefix_sibling_directories, "sibling directories util/ and util-test/ (lib/, lib.d/, 'lib (copy)/'): the longer name sorts first in path order; every entry must reach the commit's trees"),
     (("C13", "C17"), "inner-slash-ignore-lines", inner_slash_ignore_lines, "ignore lines with a slash in the middle and none at the end (Goit reads them as directory entries: text followed by anything)"),
